@@ -309,6 +309,18 @@ func (w *World) Concretise(log string, r Req, stored *CP) Concrete {
 	} else {
 		l = w.Logs[w.P.Logs[0]]
 		id = ref.LogID("verif.example/" + w.P.RunTag + "/not-configured")
+		// ... or another SPELLING of a configured log's id (the note below is that log's own, genuinely signed): letter case, surrounding
+		// white space. An id is a name, not a pattern: whatever is not the configured id is not configured (C12: one identity per log).
+		switch w.Rng.Intn(6) {
+		case 0:
+			id = strings.ToUpper(l.ID)
+		case 1:
+			id = l.ID + " "
+		case 2:
+			id = " " + l.ID
+		case 3:
+			id = l.ID + "\n"
+		}
 	}
 	c := Concrete{LogID: id, OldSize: w.OldSize(r.Old), Size: w.Sigma[r.N], Root: w.Root(l, r.B, r.N)}
 	aliasNote := ""
